@@ -24,6 +24,7 @@ RULE = ("instances of the five reference families with default options: "
         "distinct = (family, n, active-set size, x0 side)")
 RULE += ("  Also: equality families with a redundant but consistent row (sub-family; failures with exploding multipliers are the known finding KF-C04-redundant-equalities).")
 RULE += (" Box sides between one and two initial radii wide with the minimiser next to one bound.")
+RULE += (" Interval family: half-lines stated with lower limits next to rows with upper limits in one LinearConstraint.")
 ASSUMPTIONS = [
     "thresholds: largest deviation pre-measured over 1600 instances 1e-5 "
     "(3.6e-4 for the ball family); the known failure modes give >= 1e-2",
@@ -231,6 +232,18 @@ def make(case):
         side = "infeasible" if (x0[0] < lo or x0[0] > hi) else "feasible"
         if np.isfinite(lb1) or np.isfinite(ub1):
             spec["bounds"] = {"lb": [lb1], "ub": [ub1], "form": "Bounds"}
+        if rows and rng.random() < 0.5:
+            # the same half-lines stated the other way round: a x <= b as
+            # (-a) x >= -b, so that ONE LinearConstraint mixes rows that
+            # have only a lower limit with rows that have only an upper one
+            flipped = 0
+            for k in range(len(rows)):
+                if rng.random() < 0.5:
+                    rows[k] = [-rows[k][0]]
+                    lbs[k], ubs[k] = -ubs[k], np.inf
+                    flipped += 1
+            if flipped:
+                mode += "+lower_limits"
         if rows:
             spec["lin"] = [{"A": rows, "lb": lbs, "ub": ubs}]
             spec["con_kind"] = "lin"
